@@ -80,36 +80,36 @@ theorem finv_newAt {T : Nat} (hT : T ≤ 63) :
     · rintro ⟨t, hm, _⟩; rw [nodes_empty] at hm; cases hm
 
 /-- `FInv` implies the storage invariant `Inv` of `Props/C09.lean` -/
-theorem finv_inv (cr : CR H) {m : MapPollard H} {F : Forest H} (s : FInv m F) : Inv m F := s.inv cr
+theorem finv_inv (nz : NZ H) {m : MapPollard H} {F : Forest H} (s : FInv m F) : Inv m F := s.inv nz
 
 /-- **C01**: the roots of a full forest are the specification's -/
-theorem roots_full (cr : CR H) {m : MapPollard H} {F : Forest H} (s : FInv m F) : m.roots = F.roots :=
-  Props.C09.roots_eq (s.inv cr)
+theorem roots_full (nz : NZ H) {m : MapPollard H} {F : Forest H} (s : FInv m F) : m.roots = F.roots :=
+  Props.C09.roots_eq (s.inv nz)
 
 /-- in a full forest exactly the live leaves are cached -/
-theorem hasCached_full (cr : CR H) {m : MapPollard H} {F : Forest H} (s : FInv m F) (x : H) :
-    m.hasCached x = true ↔ x ∈ F.liveLeaves := MapFullRemove.FInv.hasCached_iff cr s x
+theorem hasCached_full (nz : NZ H) {m : MapPollard H} {F : Forest H} (s : FInv m F) (x : H) :
+    m.hasCached x = true ↔ x ∈ F.liveLeaves := MapFullRemove.FInv.hasCached_iff nz s x
 
 /-- **C02**: `Prove` of ANY duplicate-free list of live leaves, in any order, succeeds and returns
 the canonical proof (targets in request order, API coordinates; canonical proof hashes) -/
-theorem prove_full (cr : CR H) {m : MapPollard H} {F : Forest H} (s : FInv m F) (L : List H)
+theorem prove_full (nz : NZ H) {m : MapPollard H} {F : Forest H} (s : FInv m F) (L : List H)
     (hL : ∀ x ∈ L, x ∈ F.liveLeaves) (hnd : L.Nodup) :
     ∃ tgts hashes, F.canon L = some (tgts, hashes) ∧ m.prove L = .ok (tgts.map (encP F.rows), hashes) :=
-  Props.C09.prove_canon (s.inv cr) L (fun x hx => (hasCached_full cr s x).2 (hL x hx)) hnd
+  Props.C09.prove_canon (s.inv nz) L (fun x hx => (hasCached_full nz s x).2 (hL x hx)) hnd
 
 /-- … and `Prove` refuses a request containing a hash that is not a live leaf -/
-theorem prove_full_dead (cr : CR H) {m : MapPollard H} {F : Forest H} (s : FInv m F) (L : List H)
+theorem prove_full_dead (nz : NZ H) {m : MapPollard H} {F : Forest H} (s : FInv m F) (L : List H)
     {x : H} (hx : x ∈ L) (hdead : x ∉ F.liveLeaves) : m.prove L = .error .err := by
   apply Props.C09.prove_uncached L hx
   cases h : m.hasCached x with
   | false => rfl
-  | true => exact absurd ((hasCached_full cr s x).1 h) hdead
+  | true => exact absurd ((hasCached_full nz s x).1 h) hdead
 
 /-- **C10, `GetHash`**: for EVERY position of the forest geometry (API coordinates) the answer is
 the hash of the node of `F` there, and the all-zero hash where `F` has no node -/
-theorem getHash_full (cr : CR H) {m : MapPollard H} {F : Forest H} (s : FInv m F) (q : Pos)
+theorem getHash_full (nz : NZ H) {m : MapPollard H} {F : Forest H} (s : FInv m F) (q : Pos)
     (hq : Valid F.rows q) : m.getHash (encP F.rows q) = (F.nodeAt q).getD zero := by
-  have inv := s.inv cr
+  have inv := s.inv nz
   unfold MapPollard.getHash
   simp only [toStorage inv hq]
   unfold MapPollard.getNodeD
@@ -127,9 +127,9 @@ theorem getHash_full (cr : CR H) {m : MapPollard H} {F : Forest H} (s : FInv m F
 
 /-- **C10, `GetLeafPosition`**: for EVERY hash the answer is the position of that live leaf of `F`
 (API coordinates), and "not found" iff the hash is not a live leaf -/
-theorem getLeafPosition_full (cr : CR H) {m : MapPollard H} {F : Forest H} (s : FInv m F) (x : H) :
+theorem getLeafPosition_full (nz : NZ H) {m : MapPollard H} {F : Forest H} (s : FInv m F) (x : H) :
     m.getLeafPosition x = (F.posOf x).map (encP F.rows) := by
-  have inv := s.inv cr
+  have inv := s.inv nz
   cases hp : F.posOf x with
   | none => exact Props.C09.getLeafPosition_dead inv hp
   | some t =>
@@ -147,41 +147,41 @@ theorem getLeafPosition_full (cr : CR H) {m : MapPollard H} {F : Forest H} (s : 
 /-- **one addition** (`addSingle` followed by `NumLeaves++`), in every case: even or odd leaf
 count, non-empty and empty roots on the way up (`moveUpDescendants`), with or without `remap`.
 The leaf is appended to the specification forest and cached whatever its `Remember` flag -/
-theorem finv_addSingle (cr : CR H) {m : MapPollard H} {F : Forest H} (s : FInv m F) (a : Leaf H)
+theorem finv_addSingle (nz : NZ H) {m : MapPollard H} {F : Forest H} (s : FInv m F) (a : Leaf H)
     (hn : F.numLeaves + 1 < 2 ^ 63) (hfresh : a.hash ∉ F.liveLeaves) (hx0 : a.hash ≠ zero)
     (hxph : ∀ u v : H, a.hash ≠ ph u v) :
     ∃ m', MapPollard.add [a] m = (m', .ok ()) ∧ FInv m' (F.add a.hash) := by
-  obtain ⟨m', h1, h2⟩ := MapFullAdd.finv_addSingle cr s a hn hfresh hx0 hxph
+  obtain ⟨m', h1, h2⟩ := MapFullAdd.finv_addSingle nz s a hn hfresh hx0 hxph
   refine ⟨{ m' with numLeaves := m'.numLeaves + 1 }, ?_, h2⟩
   unfold MapPollard.add
   rw [h1]
   rfl
 
 /-- **`add` of any list of fresh, distinct, non-zero leaves that are not parent hashes** -/
-theorem finv_add (cr : CR H) {m : MapPollard H} {F : Forest H} (s : FInv m F) (adds : List (Leaf H))
+theorem finv_add (nz : NZ H) {m : MapPollard H} {F : Forest H} (s : FInv m F) (adds : List (Leaf H))
     (hn : F.numLeaves + adds.length < 2 ^ 63)
     (hfr : ∀ a ∈ adds, a.hash ∉ F.liveLeaves ∧ a.hash ≠ zero ∧ ∀ u v : H, a.hash ≠ ph u v)
     (hnd : (adds.map (·.hash)).Nodup) :
     ∃ m', MapPollard.add adds m = (m', .ok ()) ∧ FInv m' (F.addMany (adds.map (·.hash))) :=
-  MapFullAdd.finv_add cr adds s hn hfr hnd
+  MapFullAdd.finv_add nz adds s hn hfr hnd
 
 /-- **`remove` of ANY duplicate-free list of live leaves** (targets of their canonical proof) -/
-theorem finv_remove (cr : CR H) {m : MapPollard H} {F : Forest H} (s : FInv m F) (L : List H) (ts : List Pos)
+theorem finv_remove (nz : NZ H) {m : MapPollard H} {F : Forest H} (s : FInv m F) (L : List H) (ts : List Pos)
     (ps : List H) (hnd : L.Nodup) (hc : F.canon L = some (ts, ps)) :
     ∃ m', MapPollard.remove (ts.map (encP F.rows)) L m = (m', .ok ()) ∧ FInv m' (F.delLeaves L) :=
-  MapFullRemove.finv_remove cr s L ts ps hnd hc
+  MapFullRemove.finv_remove nz s L ts ps hnd hc
 
 /-- **`Modify` (a valid block) on a full forest**: any duplicate-free list of live leaves is
 deleted, any list of fresh leaves is added; the result satisfies `FInv` for the specification's
 next forest and has its roots (C01) -/
-theorem finv_modify (cr : CR H) {m : MapPollard H} {F : Forest H} (s : FInv m F) (adds : List (Leaf H))
+theorem finv_modify (nz : NZ H) {m : MapPollard H} {F : Forest H} (s : FInv m F) (adds : List (Leaf H))
     (dels : List H) (ts : List Pos) (ps : List H) (hnd : dels.Nodup) (hc : F.canon dels = some (ts, ps))
     (hfr : ∀ a ∈ adds, a.hash ∉ F.liveLeaves ∧ a.hash ≠ zero ∧ ∀ u v : H, a.hash ≠ ph u v)
     (hndA : (adds.map (·.hash)).Nodup) (hn : F.numLeaves + adds.length < 2 ^ 63) :
     ∃ m', MapPollard.modify adds dels (ts.map (encP F.rows)) m = (m', .ok ()) ∧
       FInv m' (F.modify dels (adds.map (·.hash))) ∧
       m'.roots = (F.modify dels (adds.map (·.hash))).roots := by
-  obtain ⟨m1, h1, s1⟩ := finv_remove cr s dels ts ps hnd hc
+  obtain ⟨m1, h1, s1⟩ := finv_remove nz s dels ts ps hnd hc
   have hfr' : ∀ a ∈ adds, a.hash ∉ (F.delLeaves dels).liveLeaves ∧ a.hash ≠ zero ∧ ∀ u v : H, a.hash ≠ ph u v := by
     intro a ha
     obtain ⟨g1, g2, g3⟩ := hfr a ha
@@ -191,8 +191,8 @@ theorem finv_modify (cr : CR H) {m : MapPollard H} {F : Forest H} (s : FInv m F)
     exact g1 (List.mem_filter.1 h).1
   have hn' : (F.delLeaves dels).numLeaves + adds.length < 2 ^ 63 := by
     rw [Spec.numLeaves_delLeaves]; exact hn
-  obtain ⟨m2, h2, s2⟩ := finv_add cr s1 adds hn' hfr' hndA
-  refine ⟨m2, ?_, s2, roots_full cr s2⟩
+  obtain ⟨m2, h2, s2⟩ := finv_add nz s1 adds hn' hfr' hndA
+  refine ⟨m2, ?_, s2, roots_full nz s2⟩
   unfold MapPollard.modify
   rw [h1]
   exact h2
@@ -215,7 +215,7 @@ theorem canon_enc_nodup {F : Forest H} (hn : F.numLeaves < 2 ^ 63) {L : List H}
 
 /-- **C05 for the full map forest**: the block may name its targets in ANY order (any permutation
 of the targets of the canonical proof; the proof hashes are not read at all) -/
-theorem finv_modify_any_order (cr : CR H) {m : MapPollard H} {F : Forest H} (s : FInv m F) (adds : List (Leaf H))
+theorem finv_modify_any_order (nz : NZ H) {m : MapPollard H} {F : Forest H} (s : FInv m F) (adds : List (Leaf H))
     (dels : List H) (ts : List Pos) (ps : List H) (hnd : dels.Nodup) (hc : F.canon dels = some (ts, ps))
     (hfr : ∀ a ∈ adds, a.hash ∉ F.liveLeaves ∧ a.hash ≠ zero ∧ ∀ u v : H, a.hash ≠ ph u v)
     (hndA : (adds.map (·.hash)).Nodup) (hn : F.numLeaves + adds.length < 2 ^ 63)
@@ -224,25 +224,25 @@ theorem finv_modify_any_order (cr : CR H) {m : MapPollard H} {F : Forest H} (s :
       FInv m' (F.modify dels (adds.map (·.hash))) ∧
       m'.roots = (F.modify dels (adds.map (·.hash))).roots := by
   rw [C09b.modify_encoding_independent m adds dels hp (canon_enc_nodup s.n_lt hnd hc)]
-  exact finv_modify cr s adds dels ts ps hnd hc hfr hndA hn
+  exact finv_modify nz s adds dels ts ps hnd hc hfr hndA hn
 
 /-- **`Ingest` of a canonical proof** (surplus hashes allowed) succeeds and changes NOTHING: the
 result has the same `Nodes` / `CachedLeaves` look-ups, counters and flags, and satisfies `FInv` -/
-theorem finv_ingest (cr : CR H) {m : MapPollard H} {F : Forest H} (s : FInv m F) (L : List H) (ts : List Pos)
+theorem finv_ingest (nz : NZ H) {m : MapPollard H} {F : Forest H} (s : FInv m F) (L : List H) (ts : List Pos)
     (ps junk : List H) (hnd : L.Nodup) (hc : F.canon L = some (ts, ps)) :
     ∃ m', MapPollard.ingest L (ts.map (encP F.rows)) (ps ++ junk) m = (m', .ok ()) ∧ FInv m' F ∧
       (∀ p, m'.getNode p = m.getNode p) ∧ (∀ x, m'.getCached x = m.getCached x) ∧
       m'.numLeaves = m.numLeaves ∧ m'.totalRows = m.totalRows ∧ m'.full = m.full :=
-  MapFullIngest.finv_ingest cr s L ts ps junk hnd hc
+  MapFullIngest.finv_ingest nz s L ts ps junk hnd hc
 
 /-- **`Verify(…, remember)` of a canonical proof is total and sound on a full forest**: it accepts
 (the roots it checks against are the specification's) and changes nothing -/
-theorem finv_verify (cr : CR H) {m : MapPollard H} {F : Forest H} (s : FInv m F) (L : List H) (ts : List Pos)
+theorem finv_verify (nz : NZ H) {m : MapPollard H} {F : Forest H} (s : FInv m F) (L : List H) (ts : List Pos)
     (ps junk : List H) (hnd : L.Nodup) (hc : F.canon L = some (ts, ps)) (remember : Bool) :
     ∃ m', MapPollard.verifyM L (ts.map (encP F.rows)) (ps ++ junk) remember m = (m', .ok ()) ∧ FInv m' F ∧
       (∀ p, m'.getNode p = m.getNode p) ∧ (∀ x, m'.getCached x = m.getCached x) ∧
       m'.numLeaves = m.numLeaves ∧ m'.totalRows = m.totalRows ∧ m'.full = m.full :=
-  MapFullIngest.finv_verifyM cr s L ts ps junk hnd hc remember
+  MapFullIngest.finv_verifyM nz s L ts ps junk hnd hc remember
 
 /-- hygiene gives the side condition of the soundness theorems of `Props/C03b.lean` -/
 theorem leafOK_of_hyg {F : Forest H} (hy : Hyg F) : SpecNodes.LeafOK F :=
@@ -256,7 +256,7 @@ theorem verify_sound_full (cr : CR H) {m : MapPollard H} {F : Forest H} (s : FIn
     {hs ps : List H} {ts : List U64} {remember : Bool} (hnz : ∀ h ∈ hs, h ≠ (zero : H))
     (h : (MapPollard.verifyM hs ts ps remember m).2 = .ok ()) :
     ∀ x ∈ ts.zip hs, x.1.toNat < 2 ^ m.totalRows.toNat → Props.C03b.TrueClaim F x :=
-  Props.C03c.verifyM_sound_inv_below (s.inv cr) cr (leafOK_of_hyg s.hyg) hnz h
+  Props.C03c.verifyM_sound_inv_below (s.inv cr.toNZ) cr (leafOK_of_hyg s.hyg) hnz h
 
 /-- `Prune` is a no-op on a full forest -/
 theorem finv_prune {m : MapPollard H} {F : Forest H} (s : FInv m F) (hashes : List H) :
@@ -266,22 +266,22 @@ theorem finv_prune {m : MapPollard H} {F : Forest H} (s : FInv m F) (hashes : Li
 `Modify`, possibly followed by `Verify` / `Ingest` / `Prune`, which change nothing), then
 `Undo(len adds, canonical proof of dels in F, dels, roots of F)` succeeds and the result tracks `F`
 again: `FInv m' F`, in particular its roots are `F.roots` -/
-theorem finv_undo (cr : CR H) {m : MapPollard H} {F : Forest H} {dels adds : List H} {ts : List Pos} {ps : List H}
+theorem finv_undo (nz : NZ H) {m : MapPollard H} {F : Forest H} {dels adds : List H} {ts : List Pos} {ps : List H}
     (s : FInv m (F.modify dels adds)) (hyF : Hyg F) (hnd : dels.Nodup) (hc : F.canon dels = some (ts, ps))
     (nonZero : H) (hnz : nonZero ≠ (zero : H)) :
     ∃ m', MapPollard.undo nonZero (BitVec.ofNat 64 adds.length) (ts.map (encP F.rows)) ps dels F.roots m = (m', .ok ()) ∧
       FInv m' F ∧ m'.roots = F.roots := by
-  obtain ⟨m', h1, h2⟩ := MapFullUndo.finv_undo cr s hyF hnd hc nonZero hnz
-  exact ⟨m', h1, h2, roots_full cr h2⟩
+  obtain ⟨m', h1, h2⟩ := MapFullUndo.finv_undo nz s hyF hnd hc nonZero hnz
+  exact ⟨m', h1, h2, roots_full nz h2⟩
 
 /-! ### Level 3: C01 for full forests — `Props.C09b.C01_full_statement` -/
 
 /-- every state reachable from `NewMapPollard(true)` by honest blocks satisfies `FInv` -/
-theorem reachFull_finv (cr : CR H) {m : MapPollard H} {F : Forest H} (hr : C09b.ReachFull m F) : FInv m F := by
+theorem reachFull_finv (nz : NZ H) {m : MapPollard H} {F : Forest H} (hr : C09b.ReachFull m F) : FInv m F := by
   induction hr with
   | new => exact finv_new
   | modify adds dels ts ps _ hnd hc hfr hndA hn he ih =>
-    obtain ⟨m2, h2, s2, _⟩ := finv_modify cr ih adds dels ts ps hnd hc
+    obtain ⟨m2, h2, s2, _⟩ := finv_modify nz ih adds dels ts ps hnd hc
       (fun a ha => ⟨(hfr a ha).2.1, (hfr a ha).1, (hfr a ha).2.2⟩) hndA hn
     rw [he] at h2
     rw [(Prod.mk.inj h2).1]; exact s2
@@ -289,7 +289,7 @@ theorem reachFull_finv (cr : CR H) {m : MapPollard H} {F : Forest H} (hr : C09b.
 /-- **C01 for `Full` map forests** (the statement left open in `Props/C09b.lean`): every state
 reachable from `NewMapPollard(true)` by honest blocks has the specification's roots -/
 theorem C01_full : C09b.C01_full_statement H :=
-  fun cr m F hr => roots_full cr (reachFull_finv cr hr)
+  fun nz m F hr => roots_full nz (reachFull_finv nz hr)
 
 /-! ### all operations, `Undo` included -/
 
@@ -319,24 +319,24 @@ inductive ReachFullU (nonZero : H) : MapPollard H → Forest H → List (Props.C
       ReachFullU nonZero m' b.prev st
 
 /-- the induction: every `ReachFullU` state satisfies `FInv`, and its undo stack fits its forest -/
-theorem ReachFullU.stack (cr : CR H) {nonZero : H} (hnz : nonZero ≠ (zero : H)) :
+theorem ReachFullU.stack (nz : NZ H) {nonZero : H} (hnz : nonZero ≠ (zero : H)) :
     ∀ {m : MapPollard H} {F : Forest H} {st : List (Props.C09.BlockData H)}, ReachFullU nonZero m F st →
       FInv m F ∧ C09b.StackOK F st := by
   intro m F st hr
   induction hr with
   | new => exact ⟨finv_new, trivial⟩
   | modify adds dels ts ps tgts _ hnd hc hp hfr hndA hn he ih =>
-    obtain ⟨m2, h2, s2, _⟩ := finv_modify_any_order cr ih.1 adds dels ts ps hnd hc
+    obtain ⟨m2, h2, s2, _⟩ := finv_modify_any_order nz ih.1 adds dels ts ps hnd hc
       (fun a ha => ⟨(hfr a ha).2.1, (hfr a ha).1, (hfr a ha).2.2⟩) hndA hn hp
     rw [he] at h2
     rw [(Prod.mk.inj h2).1]
     exact ⟨s2, ⟨adds.map (·.hash), by simp, rfl⟩, ih.1.hyg, hnd, hc, ih.2⟩
   | verify L ts ps remember _ hnd hc he ih =>
-    obtain ⟨m2, h2, s2, _⟩ := finv_verify cr ih.1 L ts ps [] hnd hc remember
+    obtain ⟨m2, h2, s2, _⟩ := finv_verify nz ih.1 L ts ps [] hnd hc remember
     rw [List.append_nil, he] at h2
     rw [(Prod.mk.inj h2).1]; exact ⟨s2, ih.2⟩
   | ingest L ts ps _ hnd hc he ih =>
-    obtain ⟨m2, h2, s2, _⟩ := finv_ingest cr ih.1 L ts ps [] hnd hc
+    obtain ⟨m2, h2, s2, _⟩ := finv_ingest nz ih.1 L ts ps [] hnd hc
     rw [List.append_nil, he] at h2
     rw [(Prod.mk.inj h2).1]; exact ⟨s2, ih.2⟩
   | prune L _ he ih =>
@@ -345,7 +345,7 @@ theorem ReachFullU.stack (cr : CR H) {nonZero : H} (hnz : nonZero ≠ (zero : H)
   | undo b _ he ih =>
     obtain ⟨s, ⟨adds, hlen, hF⟩, hy, hnd, hc, hst⟩ := ih
     rw [hF] at s
-    obtain ⟨m2, h2, s2, _⟩ := finv_undo cr s hy hnd hc nonZero hnz
+    obtain ⟨m2, h2, s2, _⟩ := finv_undo nz s hy hnd hc nonZero hnz
     rw [hlen, he] at h2
     rw [(Prod.mk.inj h2).1]; exact ⟨s2, hst⟩
 
@@ -355,7 +355,7 @@ theorem ReachFullU.stack (cr : CR H) {nonZero : H} (hnz : nonZero ≠ (zero : H)
 succeeds: `Verify` and `Ingest` of every canonical proof, `Prune`, `Modify` deleting ANY
 duplicate-free list of live leaves (their canonical proof exists) with the targets in ANY order, and
 `Undo` of the newest block -/
-theorem C09_reach_full (cr : CR H) (nonZero : H) (hnz : nonZero ≠ (zero : H)) :
+theorem C09_reach_full (nz : NZ H) (nonZero : H) (hnz : nonZero ≠ (zero : H)) :
     (∀ (m : MapPollard H) (F : Forest H) (st : List (Props.C09.BlockData H)), ReachFullU nonZero m F st →
       m.full = true ∧ FInv m F ∧ Inv m F ∧ m.roots = F.roots) ∧
     (∀ (m : MapPollard H) (F : Forest H) (st : List (Props.C09.BlockData H)), ReachFullU nonZero m F st →
@@ -372,29 +372,29 @@ theorem C09_reach_full (cr : CR H) (nonZero : H) (hnz : nonZero ≠ (zero : H)) 
         MapPollard.undo nonZero (BitVec.ofNat 64 b.numAdds) (b.targets.map (encP b.prev.rows)) b.proof b.dels
           b.prev.roots m = (m', .ok ()))) := by
   refine ⟨fun m F st hr => ?_, fun m F st hr => ?_⟩
-  · have s := (ReachFullU.stack cr hnz hr).1
-    exact ⟨s.full, s, s.inv cr, roots_full cr s⟩
-  · obtain ⟨s, hst⟩ := ReachFullU.stack cr hnz hr
+  · have s := (ReachFullU.stack nz hnz hr).1
+    exact ⟨s.full, s, s.inv nz, roots_full nz s⟩
+  · obtain ⟨s, hst⟩ := ReachFullU.stack nz hnz hr
     refine ⟨?_, ?_, ?_, ?_⟩
     · intro L ts ps remember hnd hc
-      obtain ⟨m1, h1, _⟩ := finv_verify cr s L ts ps [] hnd hc remember
-      obtain ⟨m2, h2, _⟩ := finv_ingest cr s L ts ps [] hnd hc
+      obtain ⟨m1, h1, _⟩ := finv_verify nz s L ts ps [] hnd hc remember
+      obtain ⟨m2, h2, _⟩ := finv_ingest nz s L ts ps [] hnd hc
       rw [List.append_nil] at h1 h2
       exact ⟨⟨m1, h1⟩, ⟨m2, h2⟩⟩
     · intro L
       exact ⟨m, finv_prune s L⟩
     · intro adds dels hnd hlive hfr hndA hn
-      obtain ⟨ts, ps, hc, _⟩ := prove_full cr s dels hlive hnd
+      obtain ⟨ts, ps, hc, _⟩ := prove_full nz s dels hlive hnd
       refine ⟨ts, ps, hc, ?_⟩
       intro tgts hp
-      obtain ⟨m2, h2, _⟩ := finv_modify_any_order cr s adds dels ts ps hnd hc
+      obtain ⟨m2, h2, _⟩ := finv_modify_any_order nz s adds dels ts ps hnd hc
         (fun a ha => ⟨(hfr a ha).2.1, (hfr a ha).1, (hfr a ha).2.2⟩) hndA hn hp
       exact ⟨m2, h2⟩
     · intro b st' e
       subst e
       obtain ⟨⟨adds, hlen, hF⟩, hy, hnd, hc, _⟩ := hst
       rw [hF] at s
-      obtain ⟨m2, h2, _⟩ := finv_undo cr s hy hnd hc nonZero hnz
+      obtain ⟨m2, h2, _⟩ := finv_undo nz s hy hnd hc nonZero hnz
       rw [hlen] at h2
       exact ⟨m2, h2⟩
 
@@ -403,16 +403,16 @@ theorem C09_reach_full (cr : CR H) (nonZero : H) (hnz : nonZero ≠ (zero : H)) 
 node there (zero where there is none); `GetLeafPosition` answers, for EVERY hash, the position of
 that live leaf ("not found" iff it is not live); `Prove` of ANY duplicate-free list of live leaves
 returns the canonical proof -/
-theorem lookups_reach_full (cr : CR H) {nonZero : H} (hnz : nonZero ≠ (zero : H)) {m : MapPollard H} {F : Forest H}
+theorem lookups_reach_full (nz : NZ H) {nonZero : H} (hnz : nonZero ≠ (zero : H)) {m : MapPollard H} {F : Forest H}
     {st : List (Props.C09.BlockData H)} (hr : ReachFullU nonZero m F st) :
     m.roots = F.roots ∧
     (∀ q, Valid F.rows q → m.getHash (encP F.rows q) = (F.nodeAt q).getD zero) ∧
     (∀ x, m.getLeafPosition x = (F.posOf x).map (encP F.rows)) ∧
     (∀ L, (∀ x ∈ L, x ∈ F.liveLeaves) → L.Nodup →
       ∃ tgts hashes, F.canon L = some (tgts, hashes) ∧ m.prove L = .ok (tgts.map (encP F.rows), hashes)) := by
-  have s := (ReachFullU.stack cr hnz hr).1
-  exact ⟨roots_full cr s, fun q hq => getHash_full cr s q hq, fun x => getLeafPosition_full cr s x,
-    fun L hL hnd => prove_full cr s L hL hnd⟩
+  have s := (ReachFullU.stack nz hnz hr).1
+  exact ⟨roots_full nz s, fun q hq => getHash_full nz s q hq, fun x => getLeafPosition_full nz s x,
+    fun L hL hnd => prove_full nz s L hL hnd⟩
 
 /-! ### non-vacuity (term-algebra hash of `Props/C09.lean`) -/
 
@@ -433,7 +433,7 @@ theorem adds5_fresh : ∀ a ∈ adds5, a.hash ∉ (Forest.empty : Forest T).live
 /-- `finv_new` + `finv_add`: `mf5` satisfies `FInv` for `F5` (three of the five leaves were added with
 `Remember = false`; all are cached) -/
 theorem mf5_finv : FInv mf5 F5 := by
-  obtain ⟨m', h1, h2⟩ := finv_add crT (finv_new (H := T)) adds5 (by decide) adds5_fresh (by decide)
+  obtain ⟨m', h1, h2⟩ := finv_add crT.toNZ (finv_new (H := T)) adds5 (by decide) adds5_fresh (by decide)
   have : mf5 = m' := by unfold mf5; rw [h1]
   rw [this, ← F5_eq]; exact h2
 
@@ -444,12 +444,12 @@ example : mf5.nodes.length = 8 ∧ mf5.cached.length = 5 ∧ mf5.nodes.all (fun 
 /-- `roots_full`, `getLeafPosition_full`, `getHash_full` instantiated -/
 example : mf5.roots = F5.roots ∧ mf5.getLeafPosition (.leaf 3) = (F5.posOf (.leaf 3)).map (encP F5.rows) ∧
     mf5.getHash (encP F5.rows (1, 1)) = (F5.nodeAt (1, 1)).getD zero :=
-  ⟨roots_full crT mf5_finv, getLeafPosition_full crT mf5_finv _, getHash_full crT mf5_finv (1, 1) (by decide)⟩
+  ⟨roots_full crT.toNZ mf5_finv, getLeafPosition_full crT.toNZ mf5_finv _, getHash_full crT.toNZ mf5_finv (1, 1) (by decide)⟩
 
 /-- `prove_full`: leaves 3 and 1 were added with `Remember = false`; a full forest proves them -/
 example : ∃ tgts hashes, F5.canon [T.leaf 3, T.leaf 1] = some (tgts, hashes) ∧
     mf5.prove [T.leaf 3, T.leaf 1] = .ok (tgts.map (encP F5.rows), hashes) :=
-  prove_full crT mf5_finv _ (by decide) (by decide)
+  prove_full crT.toNZ mf5_finv _ (by decide) (by decide)
 
 theorem canon31 : F5.canon [T.leaf 3, T.leaf 1] = some ([(0, 3), (0, 1)], [T.leaf 0, T.leaf 2]) := by
   decide +kernel
@@ -458,19 +458,19 @@ theorem canon31 : F5.canon [T.leaf 3, T.leaf 1] = some ([(0, 3), (0, 1)], [T.lea
 example : ∃ m', MapPollard.verifyM [T.leaf 3, T.leaf 1] ([(0, 3), (0, 1)].map (encP F5.rows))
     ([T.leaf 0, T.leaf 2] ++ [T.leaf 9]) true mf5 = (m', .ok ()) ∧ FInv m' F5 ∧
     (∀ p, m'.getNode p = mf5.getNode p) := by
-  obtain ⟨m', h1, h2, h3, _⟩ := finv_verify crT mf5_finv _ _ _ [T.leaf 9] (by decide) canon31 true
+  obtain ⟨m', h1, h2, h3, _⟩ := finv_verify crT.toNZ mf5_finv _ _ _ [T.leaf 9] (by decide) canon31 true
   exact ⟨m', h1, h2, h3⟩
 
 /-- `finv_ingest`: nothing changes -/
 example : ∃ m', MapPollard.ingest [T.leaf 3, T.leaf 1] ([(0, 3), (0, 1)].map (encP F5.rows))
     ([T.leaf 0, T.leaf 2] ++ []) mf5 = (m', .ok ()) ∧ FInv m' F5 ∧ (∀ x, m'.getCached x = mf5.getCached x) := by
-  obtain ⟨m', h1, h2, _, h4, _⟩ := finv_ingest crT mf5_finv _ _ _ [] (by decide) canon31
+  obtain ⟨m', h1, h2, _, h4, _⟩ := finv_ingest crT.toNZ mf5_finv _ _ _ [] (by decide) canon31
   exact ⟨m', h1, h2, h4⟩
 
 /-- `finv_remove`: leaves 3 and 1 (never added with `Remember`) are deleted -/
 example : ∃ m', MapPollard.remove ([(0, 3), (0, 1)].map (encP F5.rows)) [T.leaf 3, T.leaf 1] mf5 = (m', .ok ()) ∧
     FInv m' (F5.delLeaves [T.leaf 3, T.leaf 1]) :=
-  finv_remove crT mf5_finv _ _ _ (by decide) canon31
+  finv_remove crT.toNZ mf5_finv _ _ _ (by decide) canon31
 
 /-- `finv_modify_any_order` + `finv_undo`: a block deleting leaves 3 and 1 (neither was added with
 `Remember`; targets in ascending order although the proof lists them as 3, 1) and adding leaves
@@ -482,19 +482,19 @@ example : ∃ m' m'', MapPollard.modify [⟨T.leaf 5, false⟩, ⟨T.leaf 6, fal
     MapPollard.undo (T.leaf 9) 3#64 ([(0, 3), (0, 1)].map (encP F5.rows)) [T.leaf 0, T.leaf 2] [T.leaf 3, T.leaf 1]
       F5.roots m' = (m'', .ok ()) ∧
     FInv m'' F5 ∧ m''.roots = F5.roots := by
-  obtain ⟨m', h1, s1, _⟩ := finv_modify_any_order crT mf5_finv
+  obtain ⟨m', h1, s1, _⟩ := finv_modify_any_order crT.toNZ mf5_finv
     [⟨T.leaf 5, false⟩, ⟨T.leaf 6, false⟩, ⟨T.leaf 7, true⟩] [T.leaf 3, T.leaf 1] _ _ (by decide) canon31
     (by
       intro a ha
       simp only [List.mem_cons, List.mem_nil_iff, or_false] at ha
       rcases ha with rfl | rfl | rfl <;> exact ⟨by decide, leafT_nz _, leafT_nph _⟩)
     (by decide) (by decide) (tgts' := [1#64, 3#64]) (List.Perm.swap _ _ _)
-  obtain ⟨m'', h2, s2, r2⟩ := finv_undo crT s1 F5_hyg (by decide) canon31 (T.leaf 9) (leafT_nz 9)
+  obtain ⟨m'', h2, s2, r2⟩ := finv_undo crT.toNZ s1 F5_hyg (by decide) canon31 (T.leaf 9) (leafT_nz 9)
   exact ⟨m', m'', h1, s1, h2, s2, r2⟩
 
 /-- `ReachFullU` with an `Undo`: a block is applied to the empty full forest and undone again -/
 example : ∃ m, ReachFullU (T.leaf 9) m (Forest.empty : Forest T) [] := by
-  obtain ⟨_, hprog⟩ := C09_reach_full (H := T) crT (T.leaf 9) (leafT_nz 9)
+  obtain ⟨_, hprog⟩ := C09_reach_full (H := T) crT.toNZ (T.leaf 9) (leafT_nz 9)
   obtain ⟨_, _, hm, _⟩ := hprog _ _ _ ReachFullU.new
   have hfr : ∀ a ∈ [(⟨T.leaf 0, true⟩ : Leaf T), ⟨T.leaf 1, false⟩, ⟨T.leaf 2, true⟩],
       a.hash ≠ Hasher.zero ∧ a.hash ∉ (Forest.empty : Forest T).liveLeaves ∧ ∀ u v : T, a.hash ≠ Hasher.ph u v := by
@@ -526,7 +526,7 @@ def m9g : MapPollard T := (MapPollard.add adds9 m0g).1
 /-- the GROWING case on a full forest: allocated for 0 rows, nine additions force `remap` four times -/
 example : MapPollard.add adds9 m0g = (m9g, .ok ()) ∧
     FInv m9g ((Forest.empty : Forest T).addMany (adds9.map (·.hash))) ∧ m9g.totalRows = 4#8 := by
-  obtain ⟨m', h1, h2⟩ := finv_add crT m0g_finv adds9 (by decide)
+  obtain ⟨m', h1, h2⟩ := finv_add crT.toNZ m0g_finv adds9 (by decide)
     (by
       intro a ha
       simp only [adds9, List.mem_cons, List.mem_nil_iff, or_false] at ha
@@ -544,12 +544,12 @@ example : ∃ m' m'', MapPollard.modify [] [T.leaf 4] ([(0, 4)].map (encP F5.row
     m'.getNode (encP 63 (0, 4)) = some ⟨Hasher.zero, true⟩ ∧
     MapPollard.add [⟨T.leaf 5, false⟩] m' = (m'', .ok ()) ∧
     FInv m'' ((F5.delLeaves [T.leaf 4]).add (T.leaf 5)) := by
-  obtain ⟨m', h1, s1, _⟩ := finv_modify crT mf5_finv [] [T.leaf 4] _ _ (by decide) canon4 (by simp) (by simp)
+  obtain ⟨m', h1, s1, _⟩ := finv_modify crT.toNZ mf5_finv [] [T.leaf 4] _ _ (by decide) canon4 (by simp) (by simp)
     (by decide)
   have hF : F5.modify [T.leaf 4] (([] : List (Leaf T)).map (·.hash)) = F5.delLeaves [T.leaf 4] := by
     simp [Forest.modify, Forest.addMany]
   rw [hF] at s1
-  obtain ⟨m'', h2, s2⟩ := finv_addSingle crT s1 ⟨T.leaf 5, false⟩ (by decide) (by decide) (leafT_nz _) (leafT_nph _)
+  obtain ⟨m'', h2, s2⟩ := finv_addSingle crT.toNZ s1 ⟨T.leaf 5, false⟩ (by decide) (by decide) (leafT_nz _) (leafT_nph _)
   refine ⟨m', m'', h1, ?_, h2, s2⟩
   have : (MapPollard.modify [] [T.leaf 4] ([(0, 4)].map (encP F5.rows)) mf5).1.getNode (encP 63 (0, 4)) =
       some ⟨Hasher.zero, true⟩ := by decide +kernel
@@ -565,12 +565,12 @@ example : ∀ x ∈ ([(0, 3), (0, 1)].map (encP F5.rows)).zip [T.leaf 3, T.leaf 
       simp only [List.mem_cons, List.mem_nil_iff, or_false] at hh
       rcases hh with rfl | rfl <;> exact leafT_nz _)
     (by
-      obtain ⟨m', h1, _⟩ := finv_verify crT mf5_finv _ _ _ [] (by decide) canon31 false
+      obtain ⟨m', h1, _⟩ := finv_verify crT.toNZ mf5_finv _ _ _ [] (by decide) canon31 false
       rw [List.append_nil] at h1
       rw [h1])
 
 /-- `C01_full` instantiated on a two-block run -/
-example : ∀ m F, C09b.ReachFull (H := T) m F → m.roots = F.roots := C01_full crT
+example : ∀ m F, C09b.ReachFull (H := T) m F → m.roots = F.roots := C01_full crT.toNZ
 
 end Example
 
